@@ -152,6 +152,9 @@ var c13Templates = [][]string{
 	{"SETEX", "ks", "100", "v"}, {"PSETEX", "ks", "100000", "v"}, {"INCRBYFLOAT", "ks", "1.5"}, {"HINCRBYFLOAT", "kh", "f", "1.5"}, {"HINCRBY", "kh", "f", "5"}, {"INCRBY", "ks", "5"},
 	{"LINSERT", "kl", "BEFORE", "1", "x"}, {"LTRIM", "kl", "0", "-1"}, {"LRANGE", "kl", "0", "-1"}, {"LSET", "kl", "0", "x"}, {"LREM", "kl", "0", "x"}, {"LINDEX", "kl", "0"},
 	{"LPOP", "kl", "2"}, {"RPOP", "kl", "2"}, {"LMOVE", "kl", "kx", "LEFT", "RIGHT"}, {"SELECT", "1"}, {"INFO", "server"}, {"INFO"}, {"KEYS", "*"}, {"RANDOMKEY"}, {"DBSIZE"},
+	{"KEYS", "[a-"}, {"KEYS", "k[^0-"}, {"KEYS", "*[z-"}, {"KEYS", "["}, {"KEYS", "[^"}, {"KEYS", "k[\\"}, {"KEYS", "\\"}, {"KEYS", "[]-"}, {"KEYS", "k[a-z"}, {"KEYS", "[k-"}, {"KEYS", "*[^"},
+	{"SCAN", "0", "MATCH", "[a-"}, {"SCAN", "0", "MATCH", "*[k-"}, {"HSCAN", "kh", "0", "MATCH", "[a-"}, {"HSCAN", "kh", "0", "MATCH", "f[^"}, {"SSCAN", "kz", "0", "MATCH", "[0-"}, {"SSCAN", "kz", "0", "MATCH", "m\\"},
+	{"COMMAND", "LIST", "FILTERBY", "PATTERN", "[a-"}, {"COMMAND", "LIST", "FILTERBY", "PATTERN", "*[s-"}, {"SORT", "kl", "BY", "w_[a-"}, {"SORT", "kl", "GET", "[0-*"},
 	{"RESTORE", "kx", "0", "\x01\x01\x00\x00\x00\x03ab\x00\x00\x00\x00\x00\x00\x00\x00", "REPLACE", "ABSTTL"}, {"@DUMPRESTORE", "kl"}, {"@DUMPRESTORE", "kh"}, {"@DUMPRESTORE", "kz"}, {"@DUMPRESTORE", "ks"},
 	{"SMOVE", "kz", "kx", "m"}, {"SINTERSTORE", "kx", "kz", "kz"}, {"SDIFF", "kz", "kmiss"}, {"MSET", "a", "1", "b", "2"}, {"MSETNX", "a", "1", "b", "2"}, {"MGET", "a", "ks"},
 	{"HSET", "kh", "a", "1", "b", "2"}, {"HMGET", "kh", "f", "g"}, {"HDEL", "kh", "f"}, {"RENAME", "ks", "kx"}, {"RENAMENX", "ks", "kx"}, {"UNLINK", "ks", "kl"}, {"TOUCH", "ks", "kl"},
@@ -414,7 +417,32 @@ func c13GetHost() (*c13Host, error) {
 var c13Setup = [][]string{{"FLUSHALL"}, {"SET", "ks", "10"}, {"RPUSH", "kl", "3", "1", "2"}, {"HSET", "kh", "f", "1", "g", "x"}, {"SADD", "kz", "1", "2", "m"},
 	{"SET", "kempty", ""}, {"SET", "ks1", "abcdefgh"}, {"PEXPIREAT", "ks1", "4102444800000"}}
 
+// c13Huge: the case contains an offset or length that legitimately makes the server allocate hundreds of
+// megabytes (Redis accepts bit offsets below 2^32 and byte offsets below 512 MiB). Such a case gets a child
+// process of its own, so that the memory of earlier cases does not count against the address-space limit.
+func c13Huge(c C13Case) bool {
+	for _, f := range c.Frames {
+		for _, a := range f.Argv {
+			if n, err := strconv.ParseUint(strings.TrimPrefix(string(a), "#"), 10, 64); err == nil && n >= 1<<26 && n < 1<<33 {
+				return true
+			}
+		}
+	}
+	return false
+}
+
 func c13Run(c C13Case, st *kit.Stats) error {
+	if c13Huge(c) {
+		st.Class("case-with-a-huge-but-legal-offset(own child process)")
+		if c13Cur != nil {
+			c13Cur.kill()
+		}
+		defer func() {
+			if c13Cur != nil {
+				c13Cur.kill()
+			}
+		}()
+	}
 	h, err := c13GetHost()
 	if err != nil {
 		return fmt.Errorf("harness: %v", err)
